@@ -51,6 +51,12 @@ def run(res, tier, only=None, pid="C12"):
             res.violation(sig, "; ".join(cl) + f" (trace {b['id']}, case {c}, observed {t['obs']})", t)
         if only is not None:
             return dict(cases=s["recv"] + s["send"])
+    if only is None:
+        # the handler in a non-terminal route of a LISTENER WRAPPER (pooled matching buffers handed from connection to
+        # connection): the wrapped listener's consumer reads the stream from the first byte after the header ("ppfall" mixes of
+        # the C13 grid, clause L3 = Q1 for that reader)
+        import check_c13
+        check_c13.add_to(res, tier, ("L3",), "C12", only_mix="ppfall")
     res.assumptions += ["headers are produced and parsed by the harness's own encoder/parser (written from the haproxy specification); v2 TLVs are not generated (the library the handler uses rejects them)",
                         "receive cases run on a scripted connection, send cases over loopback TCP"]
 
